@@ -30,8 +30,8 @@ func init() {
 			"unmodified (valid-required / error-required by construction) and after 1..3 attack-grammar operations (signature removal/relocation, wrapping in evil roots, edits after signing, attacker re-signing, KeyInfo/ID/Reference/transform games, comment and namespace injection), plus root-less, wrong-root and byte-mutated documents. " +
 			"Oracle for transformed documents: reported valid => the root element minus its Signature canonicalises byte-identically to a message the oracle signed with a key trusted in this configuration whose fields are all right and which is fresh. Non-trivial = document decoded and reached signature validation; distinct by full case vector.",
 		Assumptions: []string{"the validator reads the wall clock (time.Now); a case whose expiry instant falls between the instants sampled before and after the call is inconclusive, never a verdict", "InResponseTo is not judged (the API takes no outstanding logout request IDs)"},
-		FloorQuick:  3000,
-		FloorThor:   50000,
+		FloorQuick:  900,
+		FloorThor:   3000,
 		Run:         runC18,
 		LevelText:   "Genuinely signed logout responses with every field deviation, both encodings and a grammar of signature attacks are run through the three public validators; verdicts are fixed by construction for unmodified messages and by canonical-form membership in the signed set for transformed ones, with wall-clock bracketing so that scheduling cannot flip a verdict. Held-on-observed.",
 		LevelNote:   "Trusts goxmldsig's canonicaliser in the oracle (used only to compare documents, not to validate signatures) and for producing genuine signatures.",
